@@ -334,8 +334,8 @@ SENT_IF = [['yes', 'no'], [11, 22], [False, True]]
 
 class NotIf(Sub):
     name = 'c12.not_if'
-    rule = ('NOT(c) and IF(c, s, t) for every condition value (variable, literal, computed sub-expression) and every '
-            'sentinel pair; non-trivial = condition is a number or blank or computed')
+    rule = ('NOT(c) and IF(c, s, t) for every condition value (variable, literal, computed sub-expression, one-item host list, '
+            'one-cell range, one-item literal array) and every sentinel pair, IF(c, s) for every true condition; non-trivial = condition is a number or blank or computed')
     min_cases = 40
     min_nontrivial = 20
     min_classes = 4
@@ -343,6 +343,8 @@ class NotIf(Sub):
     def cases(self, tier, unit):
         conds = [['var', v] for v in POOL8] + [['lit', v] for v in POOL8 if v is not None]
         conds += [['src', t, v] for t, v in COMPUTED if not isinstance(v, str)]
+        # a one-cell range / one-item array is its item (the arguments are flattened): host [v], host [[v]], literal {v}
+        conds += [[k, v] for k in ('arr', 'rng') for v in POOL8] + [['larr', v] for v in POOL8 if v is not None]
         for c in conds:
             yield ['not', c]
             for si in range(len(SENT_IF)):
@@ -359,6 +361,12 @@ class NotIf(Sub):
             ctext, vs = 'xa', {'xa': val}
         elif c[0] == 'lit':
             ctext, vs = lit(val), {}
+        elif c[0] == 'arr':
+            ctext, vs = 'xa', {'xa': [val]}
+        elif c[0] == 'rng':
+            ctext, vs = 'xa', {'xa': [[val]]}
+        elif c[0] == 'larr':
+            ctext, vs = '{%s}' % lit(val), {}
         else:
             ctext, vs = c[1], {}
         if not isinstance(val, bool) or c[0] == 'src':
@@ -383,6 +391,12 @@ class NotIf(Sub):
         if o[0] != 'v' or jkey(o[1]) != jkey(want):
             return fail('%s with condition %r, branches %r / %r: expected %r, got %r' % (formula, val, a, b, want, o),
                         V(want), o)
+        if t:
+            # the third argument left out: a true condition still returns the second argument
+            formula = formula[:formula.rindex(',')] + ')'
+            o = env.evo(formula, vars=vs)
+            if o[0] != 'v' or jkey(o[1]) != jkey(a):
+                return fail('%s with the true condition %r: expected the second argument %r, got %r' % (formula, val, a, o), V(a), o)
         return None
 
 
